@@ -37,6 +37,8 @@ H19 = [
     Cfg("Q4:prod x3,try_pop x3,max=3", 1, 3, 3, [], False, 3),
     Cfg("Q4:prod x2,try_pop x2 + cons x1,max=1", 1, 2, 1, [1], False, 1),
     Cfg("Q5:2 cons blocked,shutdown", 0, 0, 0, [1, 1], True),
+    Cfg("Q6:1prod x3,1 cons,max=3", 1, 3, 3, [3], False),
+    Cfg("Q6:1prod x4,1 cons,max=4", 1, 4, 4, [4], False),
 ]
 # small configurations whose complete path sets are replayed on the implementation (names exist in h19.cpp too)
 SMALL = [
